@@ -66,4 +66,24 @@ PROPS = {
                  thorough=ev("^ZZ_C05_", "2 blocks with <=1 except each; prefix lengths {0,1,8,24,31,32} and all 33 for one", "more blocks", models=300)),
         ],
     ),
+    "C19": dict(
+        assumptions=["the error is observed at NewPolicyEngineWithObjects + GetPeersList (what list and diff call); fatal classification in connlist is covered with C13"],
+        groups=[
+            dict(pkg=EVAL, harness="harness/eval", shared="harness/shared",
+                 quick=ev("^ZZ_C19_", "1..5 ANPs with priorities over all of int32 (real pdqsort/insertion-sort code executed for every order of the values); "
+                          "name/singleton/owner-label conflicts at every pair of positions among 5 other resources",
+                          "more than 5 ANPs (pdqsort switches strategy above 12 elements)", models=40),
+                 thorough=ev("^ZZ_C19_", "1..7 ANPs", "more than 7 ANPs; n>12 where pdqsort leaves insertion sort", models=300)),
+        ],
+    ),
+    "C15": dict(
+        assumptions=["'fresh engine' = NewPolicyEngineWithObjects(current objects); states whose Namespace object was deleted are outside the answer comparison (crash freedom still checked)"],
+        groups=[
+            dict(pkg=EVAL, harness="harness/eval", shared="harness/shared",
+                 quick=ev("^ZZ_C15_", "histories of 2 operations (each optionally followed by a query) from a base state, over 17 operations: insert/update/delete of a namespace, "
+                          "2 owned pods, a NetworkPolicy in two variants, 2 ANPs with symbolic priorities, the BANP; policy port ranges symbolic",
+                          "longer histories; LRU eviction (needs >500 keys); SetResources", models=60),
+                 thorough=ev("^ZZ_C15_", "histories of 3 operations", "longer histories; LRU eviction", models=400)),
+        ],
+    ),
 }
